@@ -737,6 +737,31 @@ def run(ctx) -> None:
            % (short(shallow_[0], 60) if shallow_ else "something else"),
            construct="layer_many_variable_files -> override_object")
 
+    # R8 (obligation, seed C04-15): the value that replaces a reference is the variable's RESOLVED value - in the nested resolver of
+    # interpolate a string value always goes through the recursive interpolate() call (which also expands a constant array access such as
+    # '[alpha beta gamma][1]' inside the value); a shortcut that splices the raw text in ("no '%(' in it") leaves the array syntax to be
+    # expanded over the whole surrounding string
+    itp = m.func("FlowIR.interpolate")
+    resolvers = [g for g in ast.walk(itp) if isinstance(g, ast.FunctionDef) and g is not itp and any(
+        isinstance(c, ast.Call) and last_attr(c) == "interpolate" for c in ast.walk(g))]
+    ctx.require(bool(resolvers), "anchor missing: the nested resolver of FlowIR.interpolate that recurses into interpolate()")
+    for g in resolvers:
+        rets = {r.value.id for r in ast.walk(g) if isinstance(r, ast.Return) and isinstance(r.value, ast.Name)}
+        for iff in [x for x in ast.walk(g) if isinstance(x, ast.If)]:
+            t = iff.test
+            if not (isinstance(t, ast.Call) and call_name(t) == "isinstance" and len(t.args) == 2 and "string" in source.src(t.args[1]).lower() + "str"
+                    and ("string_types" in source.src(t.args[1]) or source.src(t.args[1]) == "str")):
+                continue
+            raw_name = t.args[0].id if isinstance(t.args[0], ast.Name) else None
+            stores = [a for st in iff.body for a in ast.walk(st) if isinstance(a, ast.Assign) and any(isinstance(tg, ast.Name) and tg.id in rets for tg in a.targets)]
+            raw = [a for a in stores if not (isinstance(a.value, ast.Call) and last_attr(a.value) == "interpolate")]
+            ctx.ob("C04.R8-fixpoint-rescans", (raw or stores or [iff])[0], bool(stores) and not raw,
+                   "a string value always goes through the recursive interpolate() before it replaces the reference" if (stores and not raw) else
+                   "the nested resolver of interpolate can hand back the RAW text of a variable (%s) without resolving it: a value that holds a constant "
+                   "array access ('[alpha beta gamma][1]') is spliced in unexpanded and the array expansion then runs over the whole surrounding "
+                   "string - '--opt=%%(c)s pre-%%(c)s' resolves to 'beta beta'" % (short(raw[0], 50) if raw else "no assignment on the string branch"),
+                   construct="interpolate: string values are resolved recursively")
+
     # ---------------- R4 -------------------------------------------------------------------------------
     conf = ctx.repo.module(CONF)
     pv = conf.func("FlowIRExperimentConfiguration._patch_in_variable_files")
